@@ -3,8 +3,8 @@ Representation-level models of the two datastores (C07): `ram_datastore.py` keep
 dictionaries (owner → study → {study proto, trials dict, clients dict → operations dict}),
 `sql_datastore.py` keeps flat tables whose rows come back in insertion (rowid) order.  Each
 datastore method is modelled on both representations, following the code (existence checks,
-error kinds, `max` vs `len`, cascade on delete).  Core Lean only.  Early-stopping operations are
-a fourth table / dict handled exactly like suggestion operations and are omitted here.
+error kinds, `max` vs `len`, cascade on delete).  Core Lean only.  Early-stopping operations
+have their own small model (`Model/StoresEs.lean`).
 -/
 import VizierModel.Model.Service
 
@@ -22,6 +22,20 @@ structure Head where
 inductive DsErr where
   | notFound | alreadyExists
   deriving DecidableEq, Repr
+
+/-- one `update_metadata` call, already split as the code splits it: the study part and, per trial id (in
+first-occurrence order, `split_metadata`), that trial's part -/
+structure MdDelta where
+  study : MD
+  trials : List (Nat × MD)
+  deriving Repr
+
+/-- `metadata_util.merge_*_metadata`: last writer wins per (namespace, key) (the `Meta` model of C10) -/
+def mergeMd (old new : MD) : MD := Meta.merge Meta.keyLt old new
+
+def isOk {ε α : Type} : Except ε α → Bool
+  | .ok _ => true
+  | .error _ => false
 
 /-! ### RAM: nested association lists (Python dicts keep insertion order) -/
 
@@ -152,6 +166,29 @@ def maxOpNumber (r : Ram) (k : SKey) (c : String) : Except DsErr Nat :=
   | none => .error .notFound
   | some n => match n.opsOf c with | some ops => .ok ops.length | none => .error .notFound
 
+/-- "Now, we update one Trial at a time" -/
+def updMdTrials (r : Ram) (k : SKey) : List (Nat × MD) → Except DsErr Ram
+  | [] => .ok r
+  | (id, m) :: rest =>
+    match r.getTrial k id with
+    | .error e => .error e
+    | .ok t =>
+      match r.updateTrial k { t with md := mergeMd t.md m } with
+      | .error e => .error e
+      | .ok r' => updMdTrials r' k rest
+
+/-- `update_metadata` (repaired RAM store): the study must exist, EVERY named trial must exist before anything is
+written, then the study part is merged into the study spec and each trial's part into that trial -/
+def updateMetadata (r : Ram) (k : SKey) (d : MdDelta) : Except DsErr Ram :=
+  match r.loadStudy k with
+  | .error e => .error e
+  | .ok h =>
+    if d.trials.all (fun e => isOk (r.getTrial k e.1)) then
+      match r.updateStudy k { h with md := mergeMd h.md d.study } with
+      | .error e => .error e
+      | .ok r1 => r1.updMdTrials k d.trials
+    else .error .notFound
+
 end Ram
 
 /-! ### SQL: flat tables, rows in insertion order -/
@@ -242,6 +279,29 @@ def listOps (q : Sql) (k : SKey) (c : String) : Except DsErr (List SugOp) :=
 /-- `SELECT max(operation_number)` over the (study, client) rows -/
 def maxOpNumber (q : Sql) (k : SKey) (c : String) : Except DsErr Nat :=
   match q.opsOf k c with | [] => .error .notFound | l => .ok (l.foldl (fun m o => max m o.num) 0)
+
+/-- "Now, we update one Trial at a time" -/
+def updMdTrials (q : Sql) (k : SKey) : List (Nat × MD) → Except DsErr Sql
+  | [] => .ok q
+  | (id, m) :: rest =>
+    match q.getTrial k id with
+    | .error e => .error e
+    | .ok t =>
+      match q.updateTrial k { t with md := mergeMd t.md m } with
+      | .error e => .error e
+      | .ok q' => updMdTrials q' k rest
+
+/-- `update_metadata`: one transaction — the study row is rewritten, then each named trial row; a missing trial
+rolls EVERYTHING back (`self._connection.rollback()`), which is the same as checking all trials first -/
+def updateMetadata (q : Sql) (k : SKey) (d : MdDelta) : Except DsErr Sql :=
+  match q.loadStudy k with
+  | .error e => .error e
+  | .ok h =>
+    if d.trials.all (fun e => isOk (q.getTrial k e.1)) then
+      match q.updateStudy k { h with md := mergeMd h.md d.study } with
+      | .error e => .error e
+      | .ok q1 => q1.updMdTrials k d.trials
+    else .error .notFound
 
 end Sql
 
